@@ -876,10 +876,12 @@ func (ex *Exec) instrs(st *State, fr *Frame, b *ssa.BasicBlock, i int, k Cont) {
 		case *ssa.Send:
 			ch := ex.val(st, fr, x.Chan)
 			v := ex.val(st, fr, x.X)
+			ex.ctxAware(st, fr, x, "send", false)
 			ex.doSend(st, fr, x, ch, v, true)
 		case *ssa.UnOp:
 			if x.Op == token.ARROW {
 				ch := ex.val(st, fr, x.X)
+				ex.ctxAware(st, fr, x, "recv", strings.HasPrefix(ch.Origin, "ctxdone:"))
 				fr.vals[x] = ex.doRecv(st, fr, x, ch, x.CommaOk, x.Type())
 				continue
 			}
@@ -1206,4 +1208,17 @@ func resolveCell(v ssa.Value) (string, bool) {
 		}
 	}
 	return "", false
+}
+
+// ctxAware: in functions marked ctxaware a blocking channel operation needs a ctx.Done() alternative.
+func (ex *Exec) ctxAware(st *State, fr *Frame, instr ssa.Instruction, what string, ok bool) {
+	sp := fr.spec
+	if sp == nil || sp.CtxAware == nil {
+		return
+	}
+	goal := "false"
+	if ok {
+		goal = "true"
+	}
+	ex.oblige(st, "ctxaware", fmt.Sprintf("%s#ctxaware@%s#%d", fr.key, what, ex.ordinalOf(fr, instr, what)), sp.CtxAware.Labels, goal, sp.CtxAware, ex.posOf(instr))
 }
